@@ -39,6 +39,9 @@ def one(rng, fmt, n1, n2, m, den, fam, st, impossible=False):
     ax1 = G.rand_dist(rng, n1, den, positive=True)
     ax2 = G.rand_dist(rng, n2, den, positive=True)
     ay = G.rand_dist(rng, m, den, positive=True)
+    if rng.random() < 0.15:     # rare values: small but strictly positive base rates (joint rates near the zero tolerance)
+        ax1 = G.inject_tiny(rng, fmt, ax1, rng.choice(G.TINY[fmt][2:])) or ax1
+        ax2 = G.inject_tiny(rng, fmt, ax2, rng.choice(G.TINY[fmt][2:])) or ax2
     a = G.line("merge", fmt, fam + "." + st, [n1, n2, m], c1 + c2 + ax1 + ax2 + ay)
     b = G.line("merge", fmt, fam + "." + st, [n2, n1, m], c2 + c1 + ax2 + ax1 + ay)
     gid = CROSS_GROUPS[0]
